@@ -15,7 +15,7 @@ TRACKED = ("sub", "leave", "unsub", "deltopic", "deluser")
 JAVA = {"JAVA_TOOL_OPTIONS": "-Xss512m -Xmx6g"}
 
 DEV = ["DEV_ExitAbandonsQueues", "DEV_InitDrainNilDone", "DEV_InitDeletedSilent", "DEV_InitFailBlindTopicDel",
-       "DEV_OwnerDelViaMetaSilent", "DEV_PurgeRacesWriter", "DEV_StaleTimeoutUnreg"]
+       "DEV_OwnerDelViaMetaSilent", "DEV_PurgeRacesWriter", "DEV_StaleTimeoutUnreg", "DEV_InactiveByeIgnored", "DEV_DeleteFailLeavesPaused"]
 
 # one counterexample per deviation: (name, switches set TRUE, other overrides, expected kind of counterexample)
 DEMOS = [
@@ -27,6 +27,10 @@ DEMOS = [
     ("InitDeletedSilent", ["DEV_InitDeletedSilent", "DEV_StaleTimeoutUnreg"], {"MaxGen": "3", "MaxReq": "2", "TotalReq": "3", "Ops": '{"sub", "pub"}',
                                                                                "EvictBudget": "0", "FaultBudget": "0"}, "EveryRequestAnswered"),
     ("PurgeRacesWriter", ["DEV_PurgeRacesWriter", "DEV_ExitAbandonsQueues"], {"MaxGen": "3", "MaxReq": "2", "TotalReq": "3", "Ops": '{"sub", "disc"}'}, "Deadlock"),
+    # store faults: the owner's delete fails in the store
+    ("DeleteFailLeavesPaused", ["DEV_DeleteFailLeavesPaused"], {}, "NoTopicLeftPaused"),
+    ("InactiveByeIgnored", ["DEV_InactiveByeIgnored"], {"MaxGen": "3", "MaxReq": "3", "TotalReq": "3", "Ops": '{"sub", "del", "disc"}',
+                                                        "EvictBudget": "0", "SlowBudget": "0"}, "TerminatedSessionFullyDetached"),
 ]
 
 
@@ -130,7 +134,7 @@ def parse_fatal(out):
 def norm_ev(e):
     return {"e": e.get("e", ""), "seq": e.get("seq", 0), "g": e.get("g", 0), "id": e.get("id", "") or "", "kind": e.get("k", "") or "",
             "t": e.get("t", "") or "", "code": e.get("code", 0) or 0, "text": e.get("text", e.get("what", "")) or "", "src": e.get("src", "") or "",
-            "ret": False, "ad": "", "hard": bool(e.get("hard", False))}
+            "ret": False, "ad": "", "hard": bool(e.get("hard", False)), "px": e.get("px", "") or ""}
 
 
 class RunView:
@@ -196,6 +200,12 @@ class RunView:
             for e in h["ev"]:
                 if e["e"] == "req" and e["t"] in self.delack and e["g"] > self.delack[e["t"]][0]:
                     e["ad"] = self.delack[e["t"]][1]
+
+    def fault_fired_in(self, rnd):
+        for sn in self.rec["snaps"]:
+            if sn["round"] == rnd and sn.get("faultFired"):
+                return str(sn.get("plan", {}).get("fault", ""))
+        return ""
 
     def round_of(self, g):
         r = 0
@@ -291,7 +301,8 @@ class RunView:
         snaps = self.rec["snaps"]
         # expected "gone" notices
         gone = collections.defaultdict(list)
-        for prev, cur in zip(snaps, snaps[1:]):
+        regular = [sn for sn in snaps if not sn.get("probe")]
+        for prev, cur in zip(regular, regular[1:]):
             if not (prev["quiesced"] and cur["quiesced"]):
                 continue
             rnd = cur["round"]
@@ -328,7 +339,9 @@ class RunView:
                       for t, tp in sorted(st["topics"].items())]
             deleted = [{"t": t, "kind": self.delack.get(t, (0, self.delkind.get(t, "unknown")))[1]} for t, ex in sorted(st["rows"].items()) if not ex]
             out.append({"k": "snap", "run": self.run, "round": sn["round"], "quiesced": bool(sn["quiesced"]), "sess": sess, "topics": topics,
-                        "deleted": deleted, "registry": st["registry"], "qerr": sn.get("qerr", ""), "why": sn.get("why", "")})
+                        "deleted": deleted, "registry": st["registry"], "qerr": sn.get("qerr", ""), "why": sn.get("why", ""),
+                        "probe": bool(sn.get("probe")), "mustUnload": sn.get("mustUnload", []) or [],
+                        "fault": sn.get("plan", {}).get("fault", "") if (sn.get("probe") or sn.get("faultFired")) else ""})
         hung = []
         for hc in self.rec["hung"]:
             hung.append({"sess": hc.get("sess", ""), "req": hc.get("req", "") or "", "clean": hc.get("clean", 0), "op": hc.get("op", ""), "goid": hc.get("goid", 0)})
@@ -368,13 +381,23 @@ def describe(view, v, mon):
                         if x["e"] == "ctrl" and x["id"] == e["id"] and 200 <= x["code"] < 300:
                             out.append(({"run": view.run, "sess": name, "request": {k: e[k] for k in ("kind", "t", "id")}, "code": x["code"]},
                                         {"kind": e["kind"], "input_class": e["ad"] + "_delete", "site": "request_after_delete_succeeds"}))
+        elif mon == "ProbeAfterFault":
+            for i, e in enumerate(evs):
+                if e["e"] == "req" and e["px"]:
+                    a = [x for x in evs[i + 1:] if x["e"] == "ctrl" and x["id"] == e["id"]]
+                    code = a[0]["code"] if a else 0
+                    if not a or (e["px"] == "ok" and code not in (200, 304)) or (e["px"] == "norm" and (code == 503 or code >= 500)):
+                        plan = view.plans.get(view.round_of(e["g"]), {})
+                        out.append(({"run": view.run, "sess": name, "request": {k: e[k] for k in ("kind", "t", "id")}, "code": code, "plan": plan},
+                                    {"kind": e["kind"], "input_class": "after_fault:" + str(plan.get("fault", "")), "site": "reply_%s" % (code or "none"),
+                                     "topic": "p2p" if e["t"].startswith("p") else ("grp" if e["t"].startswith("g") else e["t"])}))
         elif mon == "DeletedTopicNotified":
             for x in v["gone"]:
                 out.append(({"run": view.run, "sess": name, "topic": x["t"]}, {"input_class": x["kind"] + "_delete", "site": "no_gone_notice"}))
     elif v["k"] == "snap":
         sess = {s["name"]: s for s in v["sess"]}
         if mon == "Quiesces":
-            out.append(({"run": view.run, "round": v["round"], "qerr": v["qerr"]}, {"site": "world_not_quiescent", "input_class": "hang" if view.rec["hung"] else "none", "why": v.get("why", "")}))
+            out.append(({"run": view.run, "round": v["round"], "qerr": v["qerr"]}, {"site": "world_not_quiescent", "input_class": "hang" if view.rec["hung"] else ("after_fault:" + v["fault"] if v.get("fault") else "none"), "why": v.get("why", "")}))
         elif mon == "AttachSymmetry":
             for s in v["sess"]:
                 if not s["live"]:
@@ -393,10 +416,13 @@ def describe(view, v, mon):
                 if s["live"]:
                     continue
                 cl = {0: "none", 1: "hung", 2: "returned"}[s["clean"]]
+                tg = [e["g"] for e in view.hist[s["name"]]["ev"] if e["e"] == "term"]
+                fr = view.fault_fired_in(view.round_of(tg[0])) if tg else ""
                 for tp in v["topics"]:
                     if s["name"] in tp["att"]:
-                        out.append(({"run": view.run, "round": v["round"], "sess": s["name"], "topic": tp["t"], "term": s["term"], "cleanUp": cl},
-                                    {"cleanup": cl, "term": s["term"], "site": "dead_session_attached"}))
+                        out.append(({"run": view.run, "round": v["round"], "sess": s["name"], "topic": tp["t"], "term": s["term"], "cleanUp": cl,
+                                     "ended_in_round": view.round_of(tg[0]) if tg else -1},
+                                    {"cleanup": cl, "term": s["term"], "site": "dead_session_attached", "input_class": "fault_round:" + fr if fr else "no_fault"}))
                 if s["clean"] == 2 and s["name"] in v["registry"]:
                     out.append(({"run": view.run, "round": v["round"], "sess": s["name"]}, {"cleanup": cl, "term": s["term"], "site": "dead_session_registered"}))
         elif mon == "OnlineRestored":
@@ -406,6 +432,7 @@ def describe(view, v, mon):
                         ghosts = [n for n in tp["att"] if n in sess and (not sess[n]["live"] or view.wedged(n)) and sess[n]["user"] == o["u"]]
                         out.append(({"run": view.run, "round": v["round"], "topic": tp["t"], "user": o["u"], "online": o["o"], "attached": o["a"]},
                                     {"site": tp["t"][:1], "delta": "high" if o["o"] > o["a"] else "low", "input_class": "ghost_attached" if ghosts else "no_ghost"}))
+                        # (online is compared with the attached foreground sessions, dead ones included: a ghost shows up under TerminatedDetached)
         elif mon == "DeletedGone":
             for d in v["deleted"]:
                 if d["t"] in [tp["t"] for tp in v["topics"]]:
@@ -414,6 +441,12 @@ def describe(view, v, mon):
                     if s["live"] and d["t"] in s["subs"]:
                         ic = "wedged_session" if view.wedged(s["name"]) else d["kind"] + "_delete"
                         out.append(({"run": view.run, "round": v["round"], "topic": d["t"], "sess": s["name"]}, {"input_class": ic, "site": "deleted_topic_listed"}))
+        elif mon == "FaultedTopicUnloads":
+            for t in v["mustUnload"]:
+                tp = [x for x in v["topics"] if x["t"] == t]
+                if tp:
+                    out.append(({"run": view.run, "round": v["round"], "topic": t, "active": tp[0]["active"], "attached": tp[0]["att"]},
+                                {"input_class": "after_fault:" + v.get("fault", ""), "site": "topic_not_unloaded"}))
         elif mon == "NoGhostSession":
             out.append(({"run": view.run, "round": v["round"]}, {"site": "unknown_session_attached"}))
     elif v["k"] == "run":
@@ -438,9 +471,9 @@ def run(ctx):
     # ---- U1: design check of the as-intended model
     base = "Attach_U1.cfg" if thorough else "Attach_U1q.cfg"
     r1 = ctx.tlc_must_pass("Attach", base, timeout=1500, env=JAVA)
-    vlib.log("U1 Attach/%s (as intended): %d states generated, %d distinct, %.1fs - deadlock-free, 8 invariants hold" % (base, r1.generated, r1.distinct, r1.wall))
+    vlib.log("U1 Attach/%s (as intended): %d states generated, %d distinct, %.1fs - deadlock-free, 9 invariants hold" % (base, r1.generated, r1.distinct, r1.wall))
     demos = {}
-    for name, sw, ov, expect in (DEMOS if thorough else DEMOS[:2]):
+    for name, sw, ov, expect in (DEMOS if thorough else DEMOS[:2] + DEMOS[5:]):
         cfg = derive_cfg(ctx, "Attach_U1q.cfg", "Attach_dev_%s.cfg" % name, sw, ov)
         r = ctx.tlc("Attach", cfg, timeout=900, env=JAVA)
         got = "Deadlock" if r.deadlock else (r.violated_invariants[0] if r.violated_invariants else ("none" if r.ok else "error:%s" % r.error))
@@ -558,7 +591,13 @@ def run(ctx):
                     replies["%s:%s" % (e["kind"], a["code"] if a else "none")] += 1
         for sn in view.rec["snaps"]:
             nsnap += 1
-            stages[str(sn.get("plan", {}).get("stage", "setup")).split(":")[0]] += 1
+            if not sn.get("probe"):
+                stages[str(sn.get("plan", {}).get("stage", "setup")).split(":")[0]] += 1
+            if sn.get("probe"):
+                stages["probe_snapshots"] += 1
+                continue
+            if sn.get("faultFired"):
+                stages["store_fault_fired:" + str(sn.get("plan", {}).get("fault"))] += 1
             if sn.get("plan", {}).get("slow"):
                 stages["slow_consumer"] += 1
             if sn.get("plan", {}).get("unload"):
